@@ -26,26 +26,21 @@ const (
 	OpOnceExit
 )
 
+// simMu is the state of a simulated primitive.  It is the first field of the
+// replacement types (same layout as simState in the overlay file, see
+// tools/autoyield): the state lives and dies with the object - a table keyed
+// by address would hand the state of a collected object (a Once that is done)
+// to a new one allocated at the same address.  Only the scheduler goroutine
+// touches it during a run (in the closures below).
 type simMu struct {
 	w bool // write-locked
-	r int  // read locks held
 
 	// A simulated sync.Once: running while the function is being executed,
 	// done afterwards.
 	running, done bool
-}
 
-func (k *Kernel) simMutex(a uintptr) *simMu {
-	s := k.simMu[a]
-	if s == nil {
-		if k.simMu == nil {
-			k.simMu = map[uintptr]*simMu{}
-		}
-		s = &simMu{}
-		k.simMu[a] = s
-	}
-
-	return s
+	_ bool
+	r int32 // read locks held
 }
 
 // SimSync is installed into the SimSync variable that the overlay adds to a
@@ -56,14 +51,14 @@ func SimSync(op int, m unsafe.Pointer) (handled, ok bool) {
 	if k == nil {
 		return false, false
 	}
-	a := uintptr(m)
+	s := (*simMu)(m)
 	rd := unsafe.Add(m, 1) // the reader side's synchronisation address
 	switch op {
 	case OpLock:
 		k.park(&note{o: Opts{
 			Site: "mutex.Lock",
-			Pred: func() bool { s := k.simMu[a]; return s == nil || (!s.w && s.r == 0) },
-			Act:  func() any { k.simMutex(a).w = true; return nil },
+			Pred: func() bool { return !s.w && s.r == 0 },
+			Act:  func() any { s.w = true; return nil },
 		}})
 		raceAcquire(m)
 		raceAcquire(rd)
@@ -71,7 +66,6 @@ func SimSync(op int, m unsafe.Pointer) (handled, ok bool) {
 		return true, true
 	case OpTryLock:
 		got := k.park(&note{o: Opts{Site: "mutex.TryLock", Act: func() any {
-			s := k.simMutex(a)
 			if s.w || s.r > 0 {
 				return false
 			}
@@ -88,8 +82,7 @@ func SimSync(op int, m unsafe.Pointer) (handled, ok bool) {
 	case OpUnlock:
 		raceRelease(m)
 		h := k.park(&note{o: Opts{Site: "mutex.Unlock", Act: func() any {
-			s := k.simMu[a]
-			if s == nil || !s.w {
+			if !s.w {
 				return false
 			}
 			s.w = false
@@ -101,15 +94,14 @@ func SimSync(op int, m unsafe.Pointer) (handled, ok bool) {
 	case OpRLock:
 		k.park(&note{o: Opts{
 			Site: "mutex.RLock",
-			Pred: func() bool { s := k.simMu[a]; return s == nil || !s.w },
-			Act:  func() any { k.simMutex(a).r++; return nil },
+			Pred: func() bool { return !s.w },
+			Act:  func() any { s.r++; return nil },
 		}})
 		raceAcquire(m)
 
 		return true, true
 	case OpTryRLock:
 		got := k.park(&note{o: Opts{Site: "mutex.TryRLock", Act: func() any {
-			s := k.simMutex(a)
 			if s.w {
 				return false
 			}
@@ -125,8 +117,7 @@ func SimSync(op int, m unsafe.Pointer) (handled, ok bool) {
 	case OpRUnlock:
 		raceReleaseMerge(rd)
 		h := k.park(&note{o: Opts{Site: "mutex.RUnlock", Act: func() any {
-			s := k.simMu[a]
-			if s == nil || s.r == 0 {
+			if s.r == 0 {
 				return false
 			}
 			s.r--
@@ -138,9 +129,8 @@ func SimSync(op int, m unsafe.Pointer) (handled, ok bool) {
 	case OpOnceEnter:
 		run := k.park(&note{o: Opts{
 			Site: "once.Do",
-			Pred: func() bool { s := k.simMu[a]; return s == nil || !s.running },
+			Pred: func() bool { return !s.running },
 			Act: func() any {
-				s := k.simMutex(a)
 				if s.done {
 					return false
 				}
@@ -157,7 +147,6 @@ func SimSync(op int, m unsafe.Pointer) (handled, ok bool) {
 	case OpOnceExit:
 		raceRelease(m)
 		k.park(&note{o: Opts{Site: "once.done", Act: func() any {
-			s := k.simMutex(a)
 			s.running, s.done = false, true
 
 			return nil
